@@ -28,6 +28,18 @@ _SORTED = ("    terms = sorted(\n        expr.terms,\n        key=lambda t: str(
 _NAMES = ("                lower_names = [sort_idx_canonical(s)[2:] for s in lower]\n"
           "                upper_names = [sort_idx_canonical(s)[2:] for s in upper]\n")
 
+_TERMS = ('        """Returns all terms the expression contains."""\n        return tuple(Term(self, i) for i in range(len(self)))\n')
+_INIT_T = ("        self._target_idx: None | tuple[Index] = None\n        if target_idx is not None:\n",
+           "        self._target_idx: None | tuple[Index] = None\n        self._terms: None | tuple = None\n        if target_idx is not None:\n")
+_SET_T = ("        if target_idx is None:\n            self._target_idx = None\n        else:\n            target_idx = set(get_symbols(target_idx))\n")
+
+
+def _TERMS_CACHED(stale_test, key):
+    return (_TERMS, '        """Returns all terms the expression contains."""\n        cached = self._terms\n'
+            f"        if cached is None or {stale_test}:\n            cached = ({key},\n"
+            "                      tuple(Term(self, i) for i in range(len(self))))\n            self._terms = cached\n        return cached[-1]\n")
+
+
 WITNESSES = [
     # ------------------------------------------------------------------ breaking edits (old set, rule ids kept)
     dict(id="c07-accept-without-test", prop="C07", file=S, expect="R07a", old=_ACCEPT, new="            return sub"),
@@ -287,4 +299,33 @@ WITNESSES = [
     dict(id="c07-operator-positions-dropped", prop="C07", file=E, expect="R07e",
          old="            for s in self.idx:\n                if s not in ret:\n                    ret[s] = []\n                ret[s].append(description)\n",
          new="            for s in self.idx[:1]:\n                if s not in ret:\n                    ret[s] = []\n                ret[s].append(description)\n"),
+
+    # ------------------------------------------------------------------ R07i: views of an Expr follow its current assumptions
+    # Term containers cached until the wrapped sympy object is replaced: set_target_idx does not replace it, the memoised
+    # descriptions / patterns of the cached terms keep the old target names
+    dict(id="c07-terms-cached-until-sympy-replaced", prop="C07", file=E, expect="R07i",
+         edits=[_INIT_T, _TERMS_CACHED("cached[0] is not self._expr", "self._expr")]),
+    # ... invalidated by set_target_idx only on the way to the Einstein convention
+    dict(id="c07-terms-cache-invalidated-for-none-only", prop="C07", file=E, expect="R07i",
+         edits=[_INIT_T, _TERMS_CACHED("cached[0] is not self._expr", "self._expr"),
+                (_SET_T, "        if target_idx is None:\n            self._target_idx = None\n            self._terms = None\n        else:\n"
+                            "            target_idx = set(get_symbols(target_idx))\n")]),
+    # the term list as a cached_property of the expression: never rebuilt, stale also after the wrapped object was replaced
+    dict(id="c07-terms-cached-property", prop="C07", file=E, expect="R07i",
+         old='    @property\n    def terms(self) -> tuple[\'Term\']:\n' + _TERMS, new='    @cached_property\n    def terms(self) -> tuple[\'Term\']:\n' + _TERMS),
+    # preserving twins: the same cache, dropped by set_target_idx / keyed by the wrapped object AND the target indices
+    dict(id="c07-ok-terms-cache-dropped-by-set-target", prop="C07", file=E, expect=None,
+         edits=[_INIT_T, _TERMS_CACHED("cached[0] is not self._expr", "self._expr"),
+                (_SET_T, "        self._terms = None\n" + _SET_T)]),
+    dict(id="c07-ok-terms-cache-keyed-with-targets", prop="C07", file=E, expect=None,
+         edits=[_INIT_T, _TERMS_CACHED("cached[0] is not self._expr or cached[1] != self._target_idx", "self._expr, self._target_idx")]),
+    # the cached views are kept, their memoised fingerprints are thrown away when the target indices change
+    dict(id="c07-ok-terms-cache-fingerprints-cleared", prop="C07", file=E, expect=None,
+         edits=[_INIT_T, _TERMS_CACHED("cached[0] is not self._expr", "self._expr"),
+                (_SET_T, "        for cached_term in (self._terms[-1] if self._terms else ()):\n            cached_term._function_cache = {}\n"
+                            "            cached_term._property_cache = {}\n" + _SET_T)]),
+    # term list built by an explicit loop
+    dict(id="c07-ok-terms-loop", prop="C07", file=E, expect=None, old=_TERMS,
+         new='        """Returns all terms the expression contains."""\n        views = []\n        for pos in range(len(self)):\n'
+             "            views.append(Term(self, pos))\n        return tuple(views)\n"),
 ]
